@@ -134,7 +134,10 @@ TEXT.update({
         'level': 'Partial (level other). Set::insert/replace/contains/get/remove/take are interpreted through the '
                  'inlined Map code; on each path class (present / absent) the boolean or Option result and the '
                  'resulting container state must equal the ideal-set table (insert true iff appended, remove/contains '
-                 'true iff a key matched, take/get/replace return the stored element). ' + PARTIAL,
+                 'true iff a key matched, take/get/replace return the stored element). retain: per iteration the '
+                 'element is removed iff the predicate answered false (swap-remove shape), and the predicate is '
+                 'called at most once per element (ASKED-ONCE, tracked across loops and element moves); extend: '
+                 'one key-keeping insert per pulled item. ' + PARTIAL,
         'note': BASE,
     },
     'C11': {
@@ -174,7 +177,11 @@ TEXT.update({
                  '(sibling agreement with next); size_hint is evaluated symbolically as an affine expression and must '
                  'satisfy lower <= max(0, remaining - other.len()) resp. 0, upper >= remaining resp. '
                  'min(remaining, other.len()); union()/symmetric_difference() must be the stated chain of parts over '
-                 'the full prefixes; Union/SymmetricDifference methods are thin delegations to the core Chain; '
+                 'the full prefixes; Union/SymmetricDifference next/size_hint/fold/count are decided element-wise over '
+                 'their parts (plain or filtered cursor), whatever the struct layout: a yielded element comes from '
+                 'exactly one part whose cursor ends right behind it and, for a filtered part, after the required lookup '
+                 'outcome; None only when every part is exhausted; hints are sums of per-part bounds; fold/count treat '
+                 'each element as that part\'s next would; '
                  '`&a - &b` puts a clone of an element of a into the result iff it was looked up in b and not found; '
                  'is_subset/is_superset/is_disjoint may return true only after every element of the right operand was '
                  'examined with the right lookup outcome and false only on a witness (or, for is_subset, when '
@@ -203,7 +210,8 @@ TEXT.update({
                  'decrements len by one and returns the stated projection, or returns None only when len == 0, changing '
                  'nothing; drain() returns a cursor over exactly [0,len) and leaves len == 0 at once; Drain/SetDrain::next '
                  'move exactly the yielded element out and advance by one; exact size_hint/len/count. The remaining '
-                 'elements are destroyed exactly once by Map::drop / Drain::drop (C02 rules). Unknown Iterator '
+                 'elements are destroyed exactly once by Map::drop / Drain::drop (C02 rules; HANDLE-DROP: when the '
+                 'owning handle is gone nothing it owned may still be live, whether or not its cursor passed it). Unknown Iterator '
                  'overrides are reported as unproven.',
         'note': BASE,
     },
